@@ -26,7 +26,7 @@
      (repair_conservative). *)
 From Coq Require Import List NArith Bool String.
 Import ListNotations.
-From OV Require Import Base.Bytes Base.Tree Model.Nav Proofs.Nav.
+From OV Require Import Base.Bytes Base.Tree Model.Nav Gen.NavShape Proofs.Nav.
 
 (* One step: related positions give equal observations, and every move (and MoveTo) succeeds or
    fails alike and leads to related positions.  fx = false: xmlquery v1.3.1 as it is, outside its
@@ -84,6 +84,142 @@ Theorem nav_programs_agree_unguarded_refuted :
     (exists p : prog bool,
        run_dom false doc p (d_init start) <> run_idr (to_idr doc) p (i_init (to_ipath doc start))).
 Proof. exact nav_programs_agree_unguarded_refuted. Qed.
+
+(* ---- the guard ref_ok is exactly the two defects of the reference ----------------------------------- *)
+(* ref_ok is decidable; check_case evaluates ref_okb on every real run of xmlquery as it is. *)
+Theorem ref_okb_spec : forall (R : Type) (p : prog R) doc regs,
+  ref_okb doc p regs = true <-> ref_ok doc p regs.
+Proof. exact ref_okb_spec. Qed.
+
+(* An observation can differ between xmlquery as it is and the IDR only at Q1 ... *)
+Theorem obs_differ_only_at_Q1 : forall doc dv iv o,
+  dom_wfb doc = true -> nav_rel doc dv iv ->
+  d_obs false doc dv o <> i_obs (to_idr doc) iv o -> quirk_obs doc dv o = true.
+Proof. exact obs_differ_only_at_Q1. Qed.
+
+(* ... where xmlquery answers "" and the IDR the text of the document node ... *)
+Theorem Q1_characterised : forall doc dv iv o,
+  dom_wfb doc = true -> nav_rel doc dv iv -> quirk_obs doc dv o = true ->
+  o = OValue /\ exists n, d_node doc (dn_cur dv) = Some n /\ d_kind n = DDoc /\
+    d_obs false doc dv o = Some (VStr []) /\
+    i_obs (to_idr doc) iv o = Some (VStr (d_inner_text n)).
+Proof. exact Q1_characterised. Qed.
+
+(* ... and a move of xmlquery as it is differs from the repaired one only at Q2, MoveToRoot on an
+   attribute position, where both go to the root and only xmlquery's attribute index survives. *)
+Theorem moves_differ_only_at_Q2 : forall doc dv iv m,
+  dom_wfb doc = true -> nav_rel doc dv iv -> quirk_move dv m = false ->
+  d_move true doc dv m = d_move false doc dv m.
+Proof. exact moves_differ_only_at_Q2. Qed.
+
+Theorem Q2_characterised : forall doc dv iv m,
+  dom_wfb doc = true -> nav_rel doc dv iv -> quirk_move dv m = true ->
+  m = MRoot /\ exists i, dn_attr dv = Some i /\
+    d_move false doc dv m = Some (mkDNav (dn_root dv) (dn_root dv) (Some i), true) /\
+    d_move true doc dv m = Some (mkDNav (dn_root dv) (dn_root dv) None, true) /\
+    i_move (to_idr doc) iv m = Some (mkINav (in_root iv) (in_root iv), true).
+Proof. exact Q2_characterised. Qed.
+
+(* ---- names (what the engine's name test compares) --------------------------------------------------- *)
+(* At the IDR position of a DOM node: LocalName = its Data, Prefix = its prefix. *)
+Theorem name_of_element : forall doc dr ir dp ip n,
+  dom_wfb doc = true -> path_rel doc dr ir -> path_rel doc dp ip -> d_node doc dp = Some n ->
+  i_obs (to_idr doc) (mkINav ir ip) OLocalName = Some (VStr (d_data n)) /\
+  i_obs (to_idr doc) (mkINav ir ip) OPrefix = Some (VStr (d_prefix n)).
+Proof. exact name_of_element. Qed.
+
+(* At the IDR position of attribute i of that node: its local name, prefix, value; type Attribute. *)
+Theorem name_of_attribute : forall doc dr ir dp ip n i a,
+  dom_wfb doc = true -> path_rel doc dr ir -> path_rel doc dp ip -> d_node doc dp = Some n ->
+  nth_error (d_attrs n) i = Some a ->
+  i_obs (to_idr doc) (mkINav ir (i :: ip)) OLocalName = Some (VStr (da_local a)) /\
+  i_obs (to_idr doc) (mkINav ir (i :: ip)) OPrefix = Some (VStr (da_prefix a)) /\
+  i_obs (to_idr doc) (mkINav ir (i :: ip)) OValue = Some (VStr (da_value a)) /\
+  i_obs (to_idr doc) (mkINav ir (i :: ip)) ONodeType = Some (VType XAttribute).
+Proof. exact name_of_attribute. Qed.
+
+(* The engine's name test (LocalName and Prefix both equal) decides alike on both bindings at
+   every related position, elements and attributes, prefixed or not - no guard needed. *)
+Theorem name_test_agree : forall doc dv iv pfx local,
+  dom_wfb doc = true -> nav_rel doc dv iv ->
+  name_test_idr (to_idr doc) iv pfx local = name_test_dom doc dv pfx local /\
+  name_test_idr (to_idr doc) iv pfx local <> None.
+Proof. exact name_test_agree. Qed.
+
+(* A bare name selects a node iff it has that local name and NO prefix (never <ext:id> for "id";
+   a default-namespace element has no prefix and is selected). *)
+Theorem bare_name_test_element : forall doc dr ir dp ip n local,
+  dom_wfb doc = true -> path_rel doc dr ir -> path_rel doc dp ip -> d_node doc dp = Some n ->
+  (name_test_idr (to_idr doc) (mkINav ir ip) [] local = Some true <->
+   d_data n = local /\ d_prefix n = []).
+Proof. exact bare_name_test_element. Qed.
+
+(* ---- attribute positions ------------------------------------------------------------------------------ *)
+(* The attribute axis as the engine walks it (MoveToNextAttribute until refused) visits all
+   attributes of the element, once each, in document order, with their prefix, name and value. *)
+Theorem attr_walk_document_order : forall doc dr ir dp ip n fuel,
+  dom_wfb doc = true -> path_rel doc dr ir -> path_rel doc dp ip -> d_node doc dp = Some n ->
+  List.length (d_attrs n) < fuel ->
+  i_attr_walk (to_idr doc) (mkINav ir ip) fuel = Some (map attr_obs (d_attrs n)).
+Proof. exact attr_walk_document_order. Qed.
+
+(* On an attribute MoveToChild / MoveToFirst / MoveToNext / MoveToPrevious refuse and stay. *)
+Theorem attr_position_refuses : forall doc dv iv m,
+  dom_wfb doc = true -> nav_rel doc dv iv -> on_attribute dv ->
+  m = MChild \/ m = MFirst \/ m = MNext \/ m = MPrev ->
+  i_move (to_idr doc) iv m = Some (iv, false).
+Proof. exact attr_position_refuses. Qed.
+
+(* MoveToParent from an attribute reaches the element that carries it. *)
+Theorem attr_parent_is_owner : forall doc dr ir dp ip n i,
+  dom_wfb doc = true -> path_rel doc dr ir -> path_rel doc dp ip -> d_node doc dp = Some n ->
+  i < List.length (d_attrs n) ->
+  i_move (to_idr doc) (mkINav ir (i :: ip)) MParent = Some (mkINav ir ip, true).
+Proof. exact attr_parent_is_owner. Qed.
+
+(* ---- idr/query.go: MatchAll / MatchSingle / MatchAny over ANY iterator --------------------------------- *)
+(* MatchAll returns exactly the engine's iteration: every node, in iteration order, duplicates
+   kept, nothing else (both directions). *)
+Theorem match_all_is_the_iteration : forall (S N : Type) (next : S -> istep S N) self s l,
+  (exists fuel, match_all next false self (Some s) fuel = WOk l) <-> yields S N next s l false.
+Proof. exact match_all_is_the_iteration. Qed.
+
+Theorem match_all_enough_fuel : forall (S N : Type) (next : S -> istep S N) self s l b fuel,
+  yields S N next s l b -> List.length l < fuel ->
+  match_all next false self (Some s) fuel = if b then WErr EQueryFailed else WOk l.
+Proof. exact match_all_enough_fuel. Qed.
+
+(* MatchSingle: ErrNoMatch / the node / ErrMoreThanExpected by the number of nodes iterated. *)
+Theorem match_single_classification : forall (S N : Type) (next : S -> istep S N) self s l,
+  yields S N next s l false -> match_single next false self (Some s) = classify N l.
+Proof. exact match_single_classification. Qed.
+
+Theorem match_single_on_panic : forall (S N : Type) (next : S -> istep S N) self s l,
+  yields S N next s l true ->
+  match_single next false self (Some s) =
+  match l with _ :: _ :: _ => WErr EMoreThanExpected | _ => WErr EQueryFailed end.
+Proof. exact match_single_on_panic. Qed.
+
+(* The two entry points answer one question (the oracle the harness applies to every query). *)
+Theorem match_single_consistent_with_match_all :
+  forall (S N : Type) (next : S -> istep S N) self s fuel l,
+  match_all next false self (Some s) fuel = WOk l ->
+  match_single next false self (Some s) = classify N l.
+Proof. exact match_single_consistent_with_match_all. Qed.
+
+Theorem match_any_spec : forall (S N : Type) (next : S -> istep S N) s l b,
+  yields S N next s l b -> match_any next s = match l with [] => false | _ :: _ => true end.
+Proof. exact match_any_spec. Qed.
+
+(* ---- tie to the source: tables and shapes re-extracted from idr/navigator.go on every run ------------- *)
+Theorem navigator_shape_extracted :
+  (forall ty, nav_nodetype_code ty = Some (xtype_code (i_xtype_of ty))) /\
+  nav_child_sibling_moves_refuse_on_attribute = true /\
+  (forall t v n m, i_node t (in_cur v) = Some n -> is_attr (t_type n) = true ->
+     m = MChild \/ m = MFirst \/ m = MNext \/ m = MPrev -> i_move t v m = Some (v, false)) /\
+  nav_value_is_inner_text = true /\
+  (forall t v, i_value t v = option_map inner_text (i_node t (in_cur v))).
+Proof. exact navigator_shape_extracted. Qed.
 
 (* Non-vacuity: <r xmlns:a="u" k="1" a:k="2">t<a:x id="7">in</a:x><y/></r>; a program that walks
    to the second attribute, back up, to the last child and its previous sibling, copies a
@@ -161,3 +297,42 @@ Example ex_repaired_q1 :
   run_dom true q_doc q1_prog (d_init []) = Some (VStr (hx "74")) /\
   run_idr (to_idr q_doc) q1_prog (i_init (to_ipath q_doc [])) = Some (VStr (hx "74")).
 Proof. split; vm_compute; reflexivity. Qed.
+
+(* Non-vacuity of the new statements, on ex_doc (root element r at DOM path [0], IDR path [0]). *)
+Example ex_attr_walk :
+  i_attr_walk (to_idr ex_doc) (mkINav [] [0]) 4 =
+  Some [(VStr (hx "786d6c6e73"), VStr (hx "61"), VStr (hx "75"));
+        (VStr [], VStr (hx "6b"), VStr (hx "31"));
+        (VStr (hx "61"), VStr (hx "6b"), VStr (hx "32"))].
+Proof. vm_compute. reflexivity. Qed.
+
+(* the bare name "x" does not select <a:x> (second child of r: DOM path [1;0], IDR path [4;0]);
+   "a:x" does *)
+Example ex_bare_name :
+  name_test_idr (to_idr ex_doc) (mkINav [] [4; 0]) [] (hx "78") = Some false /\
+  name_test_idr (to_idr ex_doc) (mkINav [] [4; 0]) (hx "61") (hx "78") = Some true.
+Proof. split; vm_compute; reflexivity. Qed.
+
+(* Q1 and Q2 positions exist: the document node of q_doc; attribute k of its root element *)
+Example ex_quirk_positions :
+  quirk_obs q_doc (mkDNav [] [] None) OValue = true /\
+  quirk_move (mkDNav [] [0] (Some 0)) MRoot = true /\
+  nav_rel q_doc (mkDNav [] [0] (Some 0)) (mkINav [] [0; 0]).
+Proof.
+  split; [reflexivity|]. split; [reflexivity|]. split; simpl.
+  - constructor.
+  - eexists [0], _. split; [|split; [reflexivity|split; [|reflexivity]]].
+    + apply (pr_child q_doc [] [] q_doc 0); [constructor|reflexivity|simpl; auto].
+    + simpl; auto.
+Qed.
+
+(* an iterator that yields 7, 7, 9 (a duplicate): MatchAll keeps all three in order,
+   MatchSingle says "more than expected", MatchAny true *)
+Example ex_wrappers :
+  yields (list N) N (script_next false) [7; 7; 9]%N [7; 7; 9]%N false /\
+  match_all (script_next false) false 0%N (Some [7; 7; 9]%N) 4 = WOk [7; 7; 9]%N /\
+  match_single (script_next false) false 0%N (Some [7; 7; 9]%N) = WErr EMoreThanExpected /\
+  match_single (script_next false) false 0%N (Some [7]%N) = WOk 7%N /\
+  match_single (script_next false) false 0%N (Some []) = WErr ENoMatch /\
+  match_any (script_next false) [7; 7; 9]%N = true.
+Proof. split; [apply script_yields|]. repeat split. Qed.
